@@ -221,6 +221,7 @@ package connectconformance
 //@           invariant forall c configCase :: has(cases, c) == (atentry(has(cases, c)) && !(has(resolvedExcludes, c) && rangeidx(c) < rangepos))
 //@   loop 4: invariant fresh(casesSlice) && len(casesSlice) == rangepos
 //@           invariant forall i int :: 0 <= i && i < rangepos ==> casesSlice[i] == rangekey(i)
+//@           invariant forall c configCase :: memCase(casesSlice, rangepos, c) == (has(cases, c) && rangeidx(c) < rangepos)
 
 // memCase is monotone in n, an equal element witnesses it, and it always has a witness
 // (proved by induction; used to relate the result slice to the key set of the map).
